@@ -224,6 +224,8 @@ func c14Cases() []c14Case {
 		c14Case{desc: "bound-before-static:title", tpl: `<p v-bind:title="t" title="static">t</p>`, data: map[string]any{"t": "bound title"}, want: map[string]string{"title": "bound title"}},
 		c14Case{desc: "bound-before-static:falsy-keeps-static", tpl: `<p :title="t" title="static" :data-k="k" data-k="s">t</p>`, data: map[string]any{"t": "", "k": "K"}, want: map[string]string{"title": "static", "data-k": "K"}},
 		c14Case{desc: "bound-between-statics", tpl: `<p id="i" :class="x" lang="en" class="a" :lang="l">t</p>`, data: map[string]any{"x": "b", "l": "de"}, want: map[string]string{"class": "a b", "id": "i", "lang": "de"}},
+		// a bracketed attribute is written literally also when the REAL directive of that name stands before it on the element
+		c14Case{desc: "bracketed-after-directive", tpl: `<p v-if="show" [v-if]="visible" v-show="open" [v-show]="isOpen" :title="tt" [:title]="raw">t</p>`, data: map[string]any{"show": true, "open": true, "tt": "T"}, want: map[string]string{"v-if": "visible", "v-show": "isOpen", "title": "T", ":title": "raw"}},
 		c14Case{desc: "style-object:hyphen-key", tpl: `<p :style="{'font-size': s}">t</p>`, data: map[string]any{"s": "9px"}, want: map[string]string{"style": ""}, style: map[string]string{"font-size": "9px"}},
 		c14Case{desc: "style-bound-string", tpl: `<p style="color: red" :style="s">t</p>`, data: map[string]any{"s": "color: green; top: 1px"}, want: map[string]string{"style": ""}, style: map[string]string{"color": "green", "top": "1px"}},
 		c14Case{desc: "style-bound-nonstring", tpl: `<p style="color: red" :style="n">t</p>`, data: map[string]any{"n": 5}, want: map[string]string{"style": ""}, style: map[string]string{"color": "red"}},
